@@ -202,3 +202,61 @@ def long_program_text(prog, rng):
         if l.strip().startswith('subroutine kernel('):
             out.append(f'    use pmod, only: {only}')
     return '\n'.join(pmod) + '\n'.join(out)
+
+
+# ----------------------------------------------------------------------------- deterministic length sweep (C04)
+# Statements whose single over-long expression string is followed by more text of the same statement:
+#   IF (<cond>) THEN | IF (<cond>) stmt | CALL s(<one huge argument>) | SELECT CASE (<expr>) | WHERE (<mask>)
+# The length of the FINAL operand is swept so that the end of the expression walks over the last columns of a
+# continuation line (the text that follows -- `) THEN`, `)` -- must then go to a line of its own).
+SWEEP_FORMS = ('ifthen', 'inlineif', 'call', 'select', 'where')
+SWEEP_BASES = (7, 8, 9, 10, 11)        # operands before the final one: for one of them the last line is nearly full
+SWEEP_RANGE = range(6, 30)             # length of the final operand: more than one operand + operator (22 columns)
+SWEEP_STEPS = tuple((nb, n) for nb in SWEEP_BASES for n in SWEEP_RANGE)
+
+
+def sweep_marker(nb, n):
+    """The final operand of a sweep step: a name of exactly n characters that carries the step (`l07b09z`)."""
+    return ('l%02db%02d' % (n, nb)) + 'z' * (n - 6)
+
+
+def sweep_text(form, depth, steps=SWEEP_STEPS):
+    """A module with one statement of the given form per sweep step, nested in `depth` IF blocks."""
+    logical = form in ('ifthen', 'inlineif')
+    names = [f'lflag_number_{i:02d}' for i in range(max(SWEEP_BASES))] if logical else [f'ivalue_number_{i:02d}' for i in range(max(SWEEP_BASES))]
+    sep = ' .and. ' if logical else ' + '
+    ty = 'logical' if logical else 'integer'
+    L = ['module kmod', 'implicit none', 'contains', 'subroutine kernel(ia, k)', 'integer, intent(inout) :: ia(0:4), k']
+    L += [f'{ty} :: {b}' for b in names] + [f'{ty} :: {sweep_marker(nb, n)}' for nb, n in steps] + ['logical :: lnest']
+    L += ['if (lnest) then'] * depth
+    for nb, n in steps:
+        e = sep.join(names[:nb] + [sweep_marker(nb, n)])
+        if form == 'ifthen':
+            L += [f'if ({e}) then', 'k = 1', 'end if']
+        elif form == 'inlineif':
+            L += [f'if ({e}) k = 1']
+        elif form == 'call':
+            L += [f'call hsweep({e})']
+        elif form == 'select':
+            L += [f'select case ({e})', 'case (1)', 'k = 1', 'end select']
+        elif form == 'where':
+            L += [f'where (ia > {e})', 'ia = 0', 'end where']
+    L += ['end if'] * depth
+    L += ['end subroutine kernel', 'subroutine hsweep(j)', 'integer, intent(in) :: j', 'end subroutine hsweep', 'end module kmod', '']
+    return '\n'.join(L)
+
+
+def sweep_hits(printed, lo=122):
+    """Sweep steps whose final operand sits at the end of a long physical line, or alone right after a break
+    (selection of inputs by the column the expression ends in; nothing is judged here)."""
+    import re
+    hits = set()
+    for line in printed.split('\n'):
+        m = re.search(r'\bl(\d\d)b(\d\d)z*\b', line, re.I)
+        if not m or '::' in line:
+            continue
+        body = line.rstrip()
+        body = body[:-1].rstrip() if body.endswith('&') else body
+        if len(line.rstrip()) >= lo or body.lstrip().lstrip('&').strip().lower().startswith(m.group(0).lower()):
+            hits.add((int(m.group(2)), int(m.group(1))))
+    return hits
